@@ -32,6 +32,7 @@ fn opts() -> Opts {
     o.straddle_pct = 2;
     o.first_line_empty_pct = 5;
     o.join_pct = 6;
+    o.multiline_tag_pct = 10;
     o
 }
 
@@ -91,7 +92,7 @@ fn plant_joined_delimiter(nodes: &mut [astgen::Node], ds: &str, t: &mut Tape) ->
 /// KF8 signature: a tag of another element stands on the line of an unwrap-block's own opening or closing tag.
 pub fn kf8_signature(r: &astgen::Rendered) -> bool {
     r.elems.iter().enumerate().any(|(i, e)| {
-        e.unwrap && e.open_line != e.close_line && r.elems.iter().enumerate().any(|(k, o)| k != i && [o.open_line, o.close_line].iter().any(|l| *l == e.open_line || *l == e.close_line))
+        e.unwrap && e.open_line != e.close_line && r.elems.iter().enumerate().any(|(k, o)| k != i && (o.open_first_line..=o.open_line).chain([o.close_line]).any(|l| (e.open_first_line..=e.open_line).contains(&l) || l == e.close_line))
     })
 }
 
